@@ -1,19 +1,396 @@
+// rudefects replays, against the REAL code, the concrete witnesses of the defects found on the pinned
+// tree (DESIGN.md §6). Each witness is a small deterministic history through public API only.
+// Output: one JSON line per witness {"id","property","signature","reproduced","detail"}.
+// A witness listed as "fixed" in known_findings.json must not reproduce; one listed as "known" is
+// reported as KNOWN-FINDING by ./check.
 package main
 
 import (
+	"context"
+	"encoding/json"
+	"flag"
 	"fmt"
+	"os"
+	"os/exec"
+	"runtime"
+	"strings"
+	"time"
+
+	gp2p "github.com/leprosus/golang-p2p"
+
+	"github.com/my-cloud/ruthenium/validatornode/application"
+	"github.com/my-cloud/ruthenium/validatornode/presentation/api/payment"
+
 	"ruverif/internal/node"
 )
 
-func main() {
+const T0 = int64(1_700_000_040_000_000_000) // multiple of one minute
+
+type result struct {
+	Id         string `json:"id"`
+	Property   string `json:"property"`
+	Signature  string `json:"signature"`
+	Reproduced bool   `json:"reproduced"`
+	Detail     string `json:"detail"`
+}
+
+type witness struct {
+	id, property, signature string
+	run                     func() (bool, string)
+	child                   bool // must run in a child process (can kill or wedge the process)
+}
+
+func settings() *node.Settings {
 	s := node.DefaultSettings()
-	w := node.NewWallet(1)
-	n := node.New("n0", s, w.Address)
-	ts := int64(1_700_000_000_000_000_000)
-	n.Pool.Validate(ts)
-	o, blocks, _ := n.Observe()
-	fmt.Println(len(blocks), o.Chain, o.Log, o.Registered)
-	n.Pool.Validate(ts + s.Interval)
-	o, blocks, _ = n.Observe()
-	fmt.Println(len(blocks), o.Log, o.Registered, len(o.ById), len(o.ByAddr))
+	s.Timeout = 100 * time.Millisecond
+	return s
+}
+
+// chain with genesis to w0, n more empty blocks; returns node and the genesis transaction id
+func boot(name string, s *node.Settings, w0 *node.Wallet, extra int) (*node.Node, string) {
+	n := node.New(name, s, w0.Address)
+	n.Pool.Validate(T0)
+	for i := 1; i <= extra; i++ {
+		n.Pool.Validate(T0 + int64(i)*s.Interval)
+	}
+	b := n.AllBlocks()
+	return n, b[0].Transactions()[0].Id()
+}
+
+func recoverTo(p *bool, d *string) {
+	if r := recover(); r != nil {
+		*p = true
+		*d = fmt.Sprintf("panic: %v", r)
+	}
+}
+
+func serve(n *node.Node) *node.Sender {
+	return &node.Sender{TargetValue: n.Name, Blocks: func(h uint64) ([]byte, error) { return n.ServeBlocks(h) }}
+}
+
+// ---- D1: uint64 wrap in the fee calculation
+func d1() (bool, string) {
+	s := settings()
+	w0, a, b := node.NewWallet(0), node.NewWallet(1), node.NewWallet(2)
+	n, gid := boot("n", s, w0, 1)
+	last := T0 + s.Interval
+	tx, _, err := node.MakeTx([]node.Spend{{gid, 0, w0}},
+		[]node.RawOutput{{a.Address, false, 1 << 63}, {b.Address, false, (1 << 63) + 5}}, last)
+	if err != nil {
+		return false, "build: " + err.Error()
+	}
+	n.Pool.AddTransaction(tx, "", "")
+	if len(n.Pool.Transactions()) != 1 {
+		return false, "transaction paying 2^64+5 from a 10^7 genesis was refused"
+	}
+	n.Pool.Validate(last + s.Interval)
+	n.Pool.Validate(last + 2*s.Interval)
+	var got uint64
+	for _, u := range n.Utxos.Utxos(a.Address) {
+		got += u.InitialValue()
+	}
+	return true, fmt.Sprintf("admitted; after confirmation address A holds %d units out of a %d genesis", got, s.Genesis)
+}
+
+// ---- D2: the producer includes a spend of a last-block output; a synced honest peer rejects the block
+func d2() (bool, string) {
+	s := settings()
+	w0, w1, w2 := node.NewWallet(0), node.NewWallet(1), node.NewWallet(2)
+	n, gid := boot("n", s, w0, 1)
+	t1 := T0 + s.Interval
+	tx1, _, err := node.MakeTx([]node.Spend{{gid, 0, w0}}, []node.RawOutput{{w1.Address, false, 5_000_000}}, t1)
+	if err != nil {
+		return false, err.Error()
+	}
+	n.Pool.AddTransaction(tx1, "", "")
+	n.Pool.Validate(T0 + 2*s.Interval) // block 2 holds tx1 (unconfirmed: it is the tip)
+	p := node.New("p", s, w2.Address)
+	p.Pool.Validate(T0) // private first block
+	p.Senders.Set([]application.Sender{serve(n)})
+	p.Chain.Update(T0 + 2*s.Interval)
+	if len(p.AllBlocks()) != 3 {
+		return false, fmt.Sprintf("setup: peer did not adopt the 3-block chain (has %d)", len(p.AllBlocks()))
+	}
+	t2 := T0 + 2*s.Interval
+	tx2, _, err := node.MakeTx([]node.Spend{{tx1.Id(), 0, w1}}, []node.RawOutput{{w2.Address, false, 4_000_000}}, t2)
+	if err != nil {
+		return false, err.Error()
+	}
+	n.Pool.AddTransaction(tx2, "", "")
+	admitted := len(n.Pool.Transactions()) == 1
+	n.Pool.Validate(T0 + 3*s.Interval)
+	blocks := n.AllBlocks()
+	included := false
+	for _, t := range blocks[len(blocks)-1].Transactions() {
+		if t.Id() == tx2.Id() {
+			included = true
+		}
+	}
+	p.Chain.Update(T0 + 3*s.Interval)
+	pl := len(p.AllBlocks())
+	if len(blocks) == 4 && pl != 4 {
+		return true, fmt.Sprintf("producer admitted=%v included=%v a spend of a last-block output; honest peer holding the same chain refused the block (peer length %d, log %v)", admitted, included, pl, tail(p.Log.Drain(), 4))
+	}
+	return false, fmt.Sprintf("producer admitted=%v included=%v; peer adopted the block (peer length %d)", admitted, included, pl)
+}
+
+func tail(l []string, k int) []string {
+	if len(l) > k {
+		return l[len(l)-k:]
+	}
+	return l
+}
+
+// ---- D4a: a chained block is mutated through the shared pending-removal slice
+func d4a() (bool, string) {
+	s := settings()
+	w0 := node.NewWallet(0)
+	n, _ := boot("n", s, w0, 1)
+	n.Reg.Update([]string{"P", "Q"}, nil)
+	n.Humans.Set([]string{"P", "Q"}, nil)
+	n.Reg.Synchronize(0)
+	n.Pool.Validate(T0 + 2*s.Interval) // block 2 lists P and Q as removed
+	b := n.AllBlocks()
+	before := node.HashHex(b[2])
+	rb := append([]string(nil), b[2].RemovedRegisteredAddresses()...)
+	n.Pool.Validate(T0 + 3*s.Interval) // confirming block 2 edits the registry's pending list in place
+	b = n.AllBlocks()
+	after := node.HashHex(b[2])
+	ra := b[2].RemovedRegisteredAddresses()
+	if before != after {
+		return true, fmt.Sprintf("block 2 served as removed=%v hash %s.., later as removed=%v hash %s..", rb, before[:8], ra, after[:8])
+	}
+	return false, "block 2 unchanged"
+}
+
+// ---- D4b: three removals in one block: one address survives (derived state != replay)
+func d4b() (bool, string) {
+	s := settings()
+	w0 := node.NewWallet(0)
+	n, _ := boot("n", s, w0, 1)
+	n.Reg.Update([]string{"P", "Q", "R"}, nil)
+	n.Humans.Set([]string{"P", "Q", "R"}, nil)
+	n.Reg.Synchronize(0)
+	n.Pool.Validate(T0 + 2*s.Interval)
+	listed := append([]string(nil), n.AllBlocks()[2].RemovedRegisteredAddresses()...)
+	n.Pool.Validate(T0 + 3*s.Interval)
+	var still []string
+	for _, a := range listed {
+		if n.Reg.IsRegistered(a) {
+			still = append(still, a)
+		}
+	}
+	if len(still) > 0 {
+		return true, fmt.Sprintf("block 2 listed %v as removed; after it was confirmed %v is still registered", listed, still)
+	}
+	return false, "all listed addresses were removed"
+}
+
+// ---- D4c: verifying a candidate on a copy edits the live pending-removal list
+func d4c() (bool, string) {
+	s := settings()
+	w0 := node.NewWallet(0)
+	n, _ := boot("n", s, w0, 1)
+	n.Reg.Update([]string{"P", "Q"}, nil)
+	n.Humans.Set([]string{"P", "Q"}, nil)
+	n.Reg.Synchronize(0)
+	before := fmt.Sprint(n.Reg.VerifPendingRemovals())
+	c := n.Reg.Copy()
+	c.Update(nil, []string{"P"})
+	after := fmt.Sprint(n.Reg.VerifPendingRemovals())
+	if before != after {
+		return true, "pending list " + before + " became " + after + " after an update on a copy"
+	}
+	return false, "pending list unchanged"
+}
+
+// ---- D5: goroutine left behind per failing neighbour
+func d5() (bool, string) {
+	s := settings()
+	w0 := node.NewWallet(0)
+	n, _ := boot("n", s, w0, 3)
+	bad := &node.Sender{TargetValue: "bad", Blocks: func(uint64) ([]byte, error) { return nil, fmt.Errorf("boom") }}
+	n.Senders.Set([]application.Sender{bad})
+	time.Sleep(50 * time.Millisecond)
+	base := runtime.NumGoroutine()
+	for i := 0; i < 5; i++ {
+		n.Chain.Update(T0 + 3*s.Interval)
+	}
+	time.Sleep(300 * time.Millisecond)
+	now := runtime.NumGoroutine()
+	if now > base {
+		return true, fmt.Sprintf("goroutines %d -> %d after 5 rounds with one failing neighbour", base, now)
+	}
+	return false, fmt.Sprintf("goroutines %d -> %d", base, now)
+}
+
+// ---- D5b: goroutine left behind when a neighbour answers after the timeout
+func d5b() (bool, string) {
+	s := settings()
+	s.Timeout = 30 * time.Millisecond
+	w0 := node.NewWallet(0)
+	n, _ := boot("n", s, w0, 3)
+	release := make(chan struct{})
+	slow := &node.Sender{TargetValue: "slow", Blocks: func(uint64) ([]byte, error) { <-release; return []byte("[]"), nil }}
+	n.Senders.Set([]application.Sender{slow})
+	time.Sleep(50 * time.Millisecond)
+	base := runtime.NumGoroutine()
+	for i := 0; i < 3; i++ {
+		n.Chain.Update(T0 + 3*s.Interval)
+	}
+	close(release)
+	time.Sleep(300 * time.Millisecond)
+	now := runtime.NumGoroutine()
+	if now > base {
+		return true, fmt.Sprintf("goroutines %d -> %d after 3 rounds with one late neighbour (answered after the timeout)", base, now)
+	}
+	return false, fmt.Sprintf("goroutines %d -> %d", base, now)
+}
+
+// ---- D6a: null transaction entry in a served block
+func d6a() (p bool, d string) {
+	defer recoverTo(&p, &d)
+	s := settings()
+	w0 := node.NewWallet(0)
+	n, _ := boot("n", s, w0, 3)
+	b := n.AllBlocks()
+	prev, _ := b[3].Hash()
+	evil := fmt.Sprintf(`[%s,{"previous_hash":%s,"added_registered_addresses":null,"removed_registered_addresses":null,"timestamp":%d,"transactions":[null]}]`,
+		mustJSON(b[3]), mustJSON(prev), T0+4*s.Interval)
+	n.Senders.Set([]application.Sender{&node.Sender{TargetValue: "evil", Blocks: func(uint64) ([]byte, error) { return []byte(evil), nil }}})
+	n.Chain.Update(T0 + 4*s.Interval)
+	return false, "no panic"
+}
+
+func mustJSON(v interface{}) string {
+	b, err := json.Marshal(v)
+	if err != nil {
+		panic(err)
+	}
+	return string(b)
+}
+
+// ---- D6b: signed transaction with inputs and no outputs is admitted; the next tick panics
+func d6b() (p bool, d string) {
+	defer recoverTo(&p, &d)
+	s := settings()
+	w0 := node.NewWallet(0)
+	n, gid := boot("n", s, w0, 1)
+	last := T0 + s.Interval
+	raw := &node.RawTx{Timestamp: last, Inputs: []node.RawInput{{0, gid, w0.PubHex, w0.Sign(0, gid)}}, Outputs: []node.RawOutput{}}
+	tx, err := raw.Seal()
+	if err != nil {
+		return false, "rejected at decode: " + err.Error()
+	}
+	n.Pool.AddTransaction(tx, "", "")
+	adm := len(n.Pool.Transactions())
+	n.Pool.Validate(last + s.Interval)
+	return false, fmt.Sprintf("no panic (admitted=%d)", adm)
+}
+
+// ---- D6c: null transaction request kills the handler goroutine (child process)
+func d6c() (bool, string) {
+	s := settings()
+	w0 := node.NewWallet(0)
+	n, _ := boot("n", s, w0, 1)
+	c := payment.NewTransactionsController(n.Senders, n.Pool)
+	for _, body := range []string{`null`, `{"Transaction":null,"TransactionBroadcasterTarget":""}`, `{}`} {
+		func() {
+			defer func() { _ = recover() }()
+			_, _ = c.HandleTransactionRequest(context.Background(), gp2p.Data{Bytes: []byte(body)})
+		}()
+	}
+	time.Sleep(200 * time.Millisecond)
+	return false, "process survived"
+}
+
+// ---- D7: AddressesRegistry.Synchronize || Copy deadlock (child process)
+func d7() (bool, string) {
+	s := settings()
+	w0 := node.NewWallet(0)
+	n, _ := boot("n", s, w0, 1)
+	n.Reg.Update([]string{"P", "Q"}, nil)
+	done := make(chan int, 2)
+	go func() {
+		for i := 0; i < 20000; i++ {
+			n.Reg.Synchronize(0)
+		}
+		done <- 1
+	}()
+	go func() {
+		for i := 0; i < 20000; i++ {
+			_ = n.Reg.Copy()
+		}
+		done <- 2
+	}()
+	deadline := time.After(8 * time.Second)
+	for k := 0; k < 2; k++ {
+		select {
+		case <-done:
+		case <-deadline:
+			return true, "Synchronize and Copy running concurrently made no progress for 8 s (lock-order inversion)"
+		}
+	}
+	return false, "both loops completed"
+}
+
+var witnesses = []witness{
+	{"D1", "C01", "C01/fee-sum-wraps-uint64", d1, false},
+	{"D2", "C05", "C05/producer-includes-spend-of-last-block-output", d2, false},
+	{"D4a", "C12", "C12/chained-block-mutated-through-shared-removal-slice", d4a, false},
+	{"D4b", "C07", "C07/three-removals-one-survives", d4b, false},
+	{"D4c", "C13", "C13/update-on-registry-copy-edits-live-pending-list", d4c, false},
+	{"D5", "C13", "C13/goroutine-leak-on-failing-neighbour", d5, false},
+	{"D5b", "C13", "C13/goroutine-leak-on-late-neighbour", d5b, false},
+	{"D6a", "C14", "C14/null-transaction-in-served-block-panics-update", d6a, false},
+	{"D6b", "C14", "C14/transaction-without-outputs-panics-next-tick", d6b, false},
+	{"D6c", "C14", "C14/null-transaction-request-kills-process", d6c, true},
+	{"D7", "C16", "C16/deadlock-addresses-registry-synchronize-copy", d7, true},
+}
+
+func main() {
+	only := flag.String("only", "", "comma separated witness ids or property ids (default all)")
+	child := flag.String("child", "", "internal")
+	flag.Parse()
+	if *child != "" {
+		for _, w := range witnesses {
+			if w.id == *child {
+				rep, det := w.run()
+				_ = json.NewEncoder(os.Stdout).Encode(result{w.id, w.property, w.signature, rep, det})
+				return
+			}
+		}
+		os.Exit(3)
+	}
+	sel := map[string]bool{}
+	for _, x := range strings.Split(*only, ",") {
+		if x != "" {
+			sel[x] = true
+		}
+	}
+	enc := json.NewEncoder(os.Stdout)
+	for _, w := range witnesses {
+		if len(sel) > 0 && !sel[w.id] && !sel[w.property] {
+			continue
+		}
+		if !w.child {
+			rep, det := w.run()
+			_ = enc.Encode(result{w.id, w.property, w.signature, rep, det})
+			continue
+		}
+		ctx, cancel := context.WithTimeout(context.Background(), 30*time.Second)
+		out, err := exec.CommandContext(ctx, os.Args[0], "--child", w.id).CombinedOutput()
+		cancel()
+		var r result
+		lines := strings.Split(strings.TrimSpace(string(out)), "\n")
+		if err == nil && json.Unmarshal([]byte(lines[len(lines)-1]), &r) == nil {
+			_ = enc.Encode(r)
+		} else {
+			msg := strings.TrimSpace(string(out))
+			if len(msg) > 300 {
+				msg = msg[:300]
+			}
+			_ = enc.Encode(result{w.id, w.property, w.signature, true, fmt.Sprintf("child process died: %v: %s", err, msg)})
+		}
+	}
 }
